@@ -288,3 +288,40 @@ def shipped_rules(repo: Path) -> str:
                + ", ".join(f"({lean_str(level)}, {level}Txt)" for level in levels) + "]")
     out += ["end ASV.Generated.ShippedRules", ""]
     return "\n".join(out)
+
+
+# ----------------------------------------------------------------------------- C18
+@table("RecordPickle")
+def record_pickle_tables(repo: Path) -> str:
+    """C18: what decides how a secmet Record crosses a process boundary — its `__slots__`, the names
+    `Record.__setattr__` / `__getattr__` divert to the wrapped SeqRecord, and whether the class
+    overrides pickling at all (`__getstate__`/`__setstate__`/`__reduce__`/`__reduce_ex__`/`__getnewargs*__`)."""
+    path = repo / "antismash/common/secmet/record.py"
+    slots = list(literal(path, "__slots__", within="Record"))
+    tree = ast.parse(path.read_text())
+    cls = next(n for n in ast.walk(tree) if isinstance(n, ast.ClassDef) and n.name == "Record")
+    methods = {n.name: n for n in cls.body if isinstance(n, ast.FunctionDef)}
+
+    def diverted(name: str) -> list:
+        if name not in methods:
+            raise TableError(f"{path}: Record.{name} not found")
+        found = []
+        for node in ast.walk(methods[name]):
+            if isinstance(node, ast.Compare) and len(node.ops) == 1 and isinstance(node.ops[0], ast.In) \
+                    and isinstance(node.comparators[0], (ast.List, ast.Tuple, ast.Set)):
+                for item in ast.literal_eval(node.comparators[0]):
+                    if isinstance(item, str) and item not in found:
+                        found.append(item)
+        return found
+    hooks = sorted(n for n in methods if n in ("__getstate__", "__setstate__", "__reduce__", "__reduce_ex__",
+                                                "__getnewargs__", "__getnewargs_ex__", "__copy__", "__deepcopy__"))
+    return ("namespace ASV.Generated.RecordPickle\n\n"
+            "/-- `Record.__slots__` -/\n"
+            f"def recordSlots : List String := {lean_str_list(slots)}\n\n"
+            "/-- names `Record.__setattr__` does not store in a slot (SeqRecord passthroughs, annotations) -/\n"
+            f"def setDiverted : List String := {lean_str_list(diverted('__setattr__'))}\n\n"
+            "/-- names `Record.__getattr__` answers from the wrapped SeqRecord -/\n"
+            f"def getDiverted : List String := {lean_str_list(diverted('__getattr__'))}\n\n"
+            "/-- pickling hooks the class defines itself (none: copyreg's slot-by-slot state is used) -/\n"
+            f"def picklingHooks : List String := {lean_str_list(hooks)}\n\n"
+            "end ASV.Generated.RecordPickle\n")
